@@ -6,7 +6,8 @@ import Driver.Proto
 Streams of C04 (byte strings in hex; a header map is `name=v1,v2;name=…`, a name without `=` has no values).
 
   c04.req   method path rawpath opaque rawquery host remoteaddr header contentLength bodyLen bodySeed
-            targetParts(scheme,host,path,rawpath,opaque,rawquery) targetString without upRules flags
+            targetParts(scheme,host,path,rawpath,opaque,rawquery) targetString without upRules flags cred upRepls
+            (cred = Authorization value made from the backend URL's credentials, or -; upRepls = field=pat/to,…;…)
      out  = method scheme urlhost path rawpath opaque rawquery reqhost header contentLength body
             (body = nobody | same | differs)
   c04.resp  status header announced trailer bodyLen bodySeed preHeader downRules flags
@@ -86,8 +87,25 @@ def parseURLParts (s : String) : Option URL :=
            rawPath := ← Driver.unhex d, opaq := ← Driver.unhex e, rawQuery := ← Driver.unhex f }
   | _ => none
 
+def parsePair (s : String) : Option (Str × Str) :=
+  match s.splitOn "/" with
+  | [a, b] => do pure (← Driver.unhex a, ← Driver.unhex b)
+  | _ => none
+
+def parseReplEntry (s : String) : Option (Str × List (Str × Str)) :=
+  match s.splitOn "=" with
+  | [k, vs] => do pure (← Driver.unhex k, ← (vs.splitOn ",").mapM parsePair)
+  | _ => none
+
+/-- replacements: `field=pat/to,pat/to;field=…` (hex) -/
+def parseRepls (s : String) : Option Repls :=
+  if s = "" then some [] else (s.splitOn ";").mapM parseReplEntry
+
+def parseCred (s : String) : Option (Option Str) :=
+  if s = "-" then some none else (Driver.unhex s).map some
+
 def parseReq : List String → Option ReqCase
-  | [m, p, rp, op, q, host, ra, hdr, cl, blen, _bseed, tparts, _tstr, wo, rules, _flags] => do
+  | [m, p, rp, op, q, host, ra, hdr, cl, blen, _bseed, tparts, _tstr, wo, rules, _flags, cred, repls] => do
     let cl ← parseInt cl
     let blen ← blen.toNat?
     let r : Request := {
@@ -98,7 +116,8 @@ def parseReq : List String → Option ReqCase
       contentLength := cl,
       body := if blen == 0 && cl == 0 then none else some (bodyToken blen) }
     let u : Upstream := { target := ← parseURLParts tparts, without := ← Driver.unhex wo,
-                          upRules := ← parseHdr rules, downRules := [] }
+                          upRules := ← parseHdr rules, downRules := [],
+                          cred := ← parseCred cred, upRepls := ← parseRepls repls }
     pure { r := r, u := u }
   | _ => none
 
@@ -115,7 +134,7 @@ def reqModel (f : List String) : String :=
   match parseReq f with
   | none => "bad-case"
   | some c =>
-    if !nonInterfering c.u.upRules then "bad-case:interfering rules"
+    if !nonInterfering c.u.upRules || !replsDistinct c.u.upRepls then "bad-case:interfering rules"
     else showReq c (forward hopList (mkRepl c.r.host c.r.remoteAddr) c.u c.r)
 
 def parseObservedReq (c : ReqCase) (out : String) : Option Request :=
@@ -141,22 +160,22 @@ def reqJudge (f : List String) (out : String) : String :=
     | some o => verdictReq specHop (mkRepl c.r.host c.r.remoteAddr) c.u c.r o
 
 /-
-  c04.retry  (the 16 fields of c04.req) target2Parts target2String
+  c04.retry  (the 18 fields of c04.req) target2Parts target2String cred2
      two backends (policy first), the first one fails before reading the body, the second answers
      out = <attempt 1 as in c04.req> TAB | TAB <attempt 2>
 -/
 def parseRetryCase (f : List String) : Option (ReqCase × Upstream) :=
-  if f.length == 18 then do
-    let c ← parseReq (f.take 16)
-    let t2 ← parseURLParts (f.getD 16 "")
-    pure (c, { c.u with target := t2 })
+  if f.length == 21 then do
+    let c ← parseReq (f.take 18)
+    let t2 ← parseURLParts (f.getD 18 "")
+    pure (c, { c.u with target := t2, cred := ← parseCred (f.getD 20 "") })
   else none
 
 def retryModel (f : List String) : String :=
   match parseRetryCase f with
   | none => "bad-case"
   | some (c, u2) =>
-    if !nonInterfering c.u.upRules then "bad-case:interfering rules"
+    if !nonInterfering c.u.upRules || !replsDistinct c.u.upRepls then "bad-case:interfering rules"
     else
       let (o1, o2) := forwardRetry hopList (mkRepl c.r.host c.r.remoteAddr) c.u u2 c.r
       showReq c o1 ++ "\t|\t" ++ showReq c o2
